@@ -11,6 +11,8 @@ import (
 
 	"github.com/ysugimoto/falco/v2/ast"
 
+	"github.com/ysugimoto/falco/v2/snippet"
+
 	"verif/harness/fw"
 	"verif/harness/gen"
 	"verif/harness/lintutil"
@@ -28,7 +30,18 @@ type lcase struct {
 	Shape  string            `json:"shape,omitempty"`
 	Source string            `json:"source,omitempty"`
 	Name   string            `json:"name,omitempty"`
+	// Fastly managed snippets in the linter context
+	Scoped  []snipSpec        `json:"scoped,omitempty"`
+	IncSnip map[string]string `json:"inc_snip,omitempty"`
 }
+
+type snipSpec struct {
+	Scope, Name, Data string
+	Priority          int64
+}
+
+// curSnips is the snippet set of the case in hand (one case at a time per worker)
+var curSnips *snippet.Snippets
 
 func main() {
 	fw.Main(&fw.Prop{
@@ -36,8 +49,9 @@ func main() {
 		Level: "exploration",
 		Rule: "programs: grammar-directed generator (well- and ill-typed by construction: it is type-blind), hand-written programs with recursion, duplicates, gotos, functional subroutines, `error;`, every example and corpus file; " +
 			"call-graph programs (2-7 user subroutines calling each other at random incl. cycles, callers outside cycles, unused ones, calls from several Fastly subroutines, scope annotations, functional subroutines, scope-restricted statements, used/unused tables, ACLs, backends) built as one text block per declaration; " +
-			"include graphs: ALL digraphs over up to three module files (missing, self, 2-cycle, 3-cycle, diamond, chain) with the include at top level, inside a subroutine, and inside nested if / else / switch-case blocks of the included module, each with three fillings. " +
-			"Monitors: panic guard / worker death / include-load budget (>10000 module loads for a <=4-file graph = non-terminating); repeat monitor (every program linted 8x in fresh contexts in one process - Go randomises map iteration per range statement - " +
+			"include graphs: ALL digraphs over up to three module files (missing, self, 2-cycle, 3-cycle, diamond, chain) with the include at top level, inside a subroutine, and inside nested if / else / switch-case blocks of the included module, each with three fillings, also behind a sibling block and three blocks deep; Fastly managed snippets in the linter context: scoped snippets whose order matters (declare / use / use) under four priority sets and all six insertion orders, and `snippet::name` includes that are plain, missing, self-including and mutually including at the top of a snippet and inside its blocks, from a subroutine, a block, a module and the root. " +
+			"The call-graph programs also declare a Fastly subroutine twice (second declaration with callees of its own) and a user subroutine twice (plain or functional second definition with a neutral body and the same annotation; a name that is declared more than once is compared without its position). " +
+			"Monitors: panic guard / worker death / include-load budget (>10000 module loads for a <=4-file graph = non-terminating); repeat monitor (every program linted 8x (hand-written and snippet programs 24x) in fresh contexts in one process - Go randomises map iteration per range statement - " +
 			"multisets of (rule, severity, file, line, position, message) must be equal); permutation monitor (random permutations of the top-level subroutine declarations; multisets with positions mapped to (subroutine name, statement ordinal) must be equal). " +
 			"non-trivial = program with >=1 diagnostic; distinct by program text",
 		Assumptions: []string{
@@ -79,7 +93,7 @@ func includeGraphs() []lcase {
 		if n > 4 {
 			continue // keep the graphs small: at most 4 edges besides the root's
 		}
-		for _, place := range []string{"top", "sub", "nested-if", "nested-else", "nested-switch"} {
+		for _, place := range []string{"top", "sub", "nested-if", "nested-else", "nested-switch", "nested-after-sibling", "nested-deep"} {
 			inSub := place != "top"
 			if n == 0 && place != "top" && place != "sub" {
 				continue
@@ -107,6 +121,13 @@ func includeGraphs() []lcase {
 						continue
 					case place == "nested-else":
 						lc.Mods[m] = "if (req.http.A) {\n  set req.http.In-" + m + " = \"1\";\n} else if (req.http.B) {\n" + inc(edges[m]) + "} else {\n" + inc(edges[m]) + "}\n"
+						continue
+					case place == "nested-after-sibling":
+						// the include follows a sibling block, inside a block and at the top of the module
+						lc.Mods[m] = "if (req.http.A) {\n  if (req.http.B) {\n    set req.http.In-" + m + " = \"1\";\n  }\n" + inc(edges[m]) + "}\nif (req.http.C) {\n  set req.http.C = \"2\";\n}\n" + inc(edges[m])
+						continue
+					case place == "nested-deep":
+						lc.Mods[m] = "if (req.http.A) {\n  if (req.http.B) {\n    if (req.http.C) {\n" + inc(edges[m]) + "    } else {\n      set req.http.In-" + m + " = \"1\";\n    }\n" + inc(edges[m]) + "  }\n}\n"
 						continue
 					case place == "nested-switch":
 						lc.Mods[m] = "switch (req.http.A) {\ncase \"a\":\n" + inc(edges[m]) + "  break;\ndefault:\n  { " + strings.ReplaceAll(inc(edges[m]), "\n", " ") + "}\n  break;\n}\n"
@@ -183,6 +204,14 @@ var handPrograms = []string{
 	"sub vcl_recv {\n#FASTLY RECV\n  if (req.http.A ~ \"(a)(b)\") { set req.http.B = re.group.3; }\n  if (req.http.C ~ \"x\") { if (req.http.D ~ \"y\") { set req.http.E = re.group.0; } }\n}\n",
 	"import foo;\ninclude \"nosuch\";\nsub vcl_recv {\n#FASTLY RECV\n  include \"nosuch2\";\n}\n",
 	"sub f(STRING var.a, INTEGER var.a) BOOL { return true; }\nsub g() { }\nsub vcl_recv {\n#FASTLY RECV\n  call f(\"x\");\n  call g(1);\n  call f;\n}\n",
+	// a plain and a functional subroutine of one name, in both orders; nobody calls them
+	"// @scope: recv\nsub normalize { set req.http.Host = std.tolower(req.http.Host); }\n// @scope: recv\nsub normalize STRING { return std.tolower(req.http.Host); }\nsub vcl_recv {\n#FASTLY RECV\n  return(lookup);\n}\n",
+	"// @scope: recv\nsub normalize STRING { return std.tolower(req.http.Host); }\nsub vcl_recv {\n#FASTLY RECV\n  return(lookup);\n}\n// @scope: recv\nsub normalize { set req.http.Host = std.tolower(req.http.Host); }\nsub other_user { call normalize; }\n",
+	// a director declared BEFORE its member backends, some used only through it
+	"director origins random {\n  { .backend = origin_a; .weight = 1; }\n  { .backend = origin_b; .weight = 1; }\n  { .backend = origin_c; .weight = 1; }\n}\nbackend origin_a { .host = \"a.example.com\"; }\nbackend origin_b { .host = \"b.example.com\"; }\nbackend origin_c { .host = \"c.example.com\"; }\nbackend lonely { .host = \"d.example.com\"; }\nsub vcl_recv {\n#FASTLY RECV\n  set req.backend = origins;\n  return(lookup);\n}\n",
+	"director unused_d random {\n  { .backend = origin_a; .weight = 1; }\n  { .backend = origin_b; .weight = 1; }\n}\nbackend origin_a { .host = \"a.example.com\"; }\nbackend origin_b { .host = \"b.example.com\"; }\ndirector second client {\n  { .backend = origin_b; .weight = 1; }\n}\nsub vcl_recv {\n#FASTLY RECV\n  set req.backend = second;\n  return(lookup);\n}\n",
+	// two declarations of one Fastly subroutine that call different helpers
+	"sub vcl_recv {\n#FASTLY RECV\n  call a;\n  return(lookup);\n}\nsub vcl_recv {\n#FASTLY RECV\n  call b;\n  return(lookup);\n}\nsub a { set req.http.A = \"1\"; }\nsub b { set req.http.B = \"1\"; }\n",
 }
 
 func genCases(g *fw.GenCtx) {
@@ -193,7 +222,7 @@ func genCases(g *fw.GenCtx) {
 		g.Emit("seed", lcase{Source: s.Text, Name: s.Name, Reps: 8})
 	}
 	for i, h := range handPrograms {
-		g.Emit("hand", lcase{Source: h, Name: fmt.Sprintf("hand-%d", i), Reps: 8, Perms: 6})
+		g.Emit("hand", lcase{Source: h, Name: fmt.Sprintf("hand-%d", i), Reps: 24, Perms: 6})
 	}
 	graphs := includeGraphs()
 	if g.Quick() {
@@ -212,6 +241,9 @@ func genCases(g *fw.GenCtx) {
 	for _, gr := range graphs {
 		gr.Reps = 2
 		g.Emit("include", gr)
+	}
+	for _, sc := range snippetCases() {
+		g.Emit("snippets", sc)
 	}
 	for k := 0; k < g.Pick(120, 3000); k++ {
 		g.Emit("gen", lcase{Seed: g.Rand.Int63(), N: 20, Reps: 8, Perms: g.Pick(4, 12)})
@@ -233,7 +265,7 @@ func clip(s string, n int) string {
 func lintGuarded(oc *fw.Outcome, src string, mods map[string]string, what string, detail map[string]any) (*lintutil.Result, bool) {
 	var res *lintutil.Result
 	mr := &lintutil.MapResolver{Main: src, Modules: mods, Budget: 10000}
-	p, msg, st := fw.Guard(func() { res = lintutil.Lint(src, mr) })
+	p, msg, st := fw.Guard(func() { res = lintutil.LintWith(src, mr, curSnips) })
 	if p {
 		if msg == lintutil.ErrIncludeBudget {
 			oc.Violate("include:non-terminating", "include expansion loaded more than 10000 modules for a graph of at most four files", detail)
@@ -455,6 +487,12 @@ func run(c fw.Case) fw.Outcome {
 		if c.Kind == "hand" {
 			oc.Sample = map[string]any{"source": lc.Source}
 		}
+	case "snippets":
+		curSnips = buildSnippets(lc)
+		repeatMonitor(&oc, lc.Main, lc.Mods, lc.Reps, "snippets:"+lc.Shape, map[string]any{"main": lc.Main, "scoped": lc.Scoped, "include_snippets": lc.IncSnip, "shape": lc.Shape})
+		curSnips = nil
+		oc.Tag("snippet-shape:" + lc.Shape)
+		oc.NonTrivialS(lc.Shape + lc.Main + fmt.Sprint(lc.Scoped, lc.IncSnip))
 	case "include":
 		repeatMonitor(&oc, lc.Main, lc.Mods, lc.Reps, "include:"+lc.Shape, map[string]any{"main": lc.Main, "modules": lc.Mods, "shape": lc.Shape})
 		oc.Tag("include-shape:" + lc.Shape)
